@@ -22,6 +22,8 @@ GLOBAL_ASSUMPTIONS = [
     "library contracts in pvc/npspec.py, pvc/nplib.py (numpy/scipy/stdlib) are assumed; conformance-tested (bounded), not proved",
     "print/warnings/time/inspect and the text of error messages are modelled as effect-free",
     "termination is not proved (partial correctness)",
+    "callee contracts listed under coverage.assumed_callee_contracts are assumed at their call sites (each is proved in the harness of the callee where one exists, see DESIGN.md 9.35)",
+    "instance sizes (grids, vector lengths, matrix orders, arities, iteration counts) are enumerated where the executor needs concrete shapes: a stated bound per harness, data always symbolic",
 ]
 
 
@@ -255,6 +257,8 @@ def run_check(prop, tier, only=None, jobs=None, native=True, proof=True, verbose
             'checker_cmd': f"./check {prop} --{tier}",
             'trusted_base': ["pvc symbolic executor (/verif/pvc: interp.py arrays.py values.py)", "library contracts pvc/npspec.py pvc/nplib.py",
                              "z3 5.1 / cvc5 1.0 / z3 4.8", "Lean 4.33 + Mathlib for lemmas under /verif/lemmas (where used)",
+                             "normalisers for polynomial identities: z3 simplify(som) and sympy.expand (contracts/C01.py poly_zero / poly_zero_full)",
+                             "mpmath.iv interval arithmetic and random sampling are used ONLY to validate counter-models (pvc/ieval.py, smt.refute_by_sampling): nothing is discharged by them",
                              "lemma instance schemas in contracts/common.py (euclid, mul_mono) correspond to lemmas/int_lemmas.smt2"],
             'samples': samples,
             'functions_under_contract': [f for f in fn_list if f.get('under_contract')],
@@ -267,6 +271,9 @@ def run_check(prop, tier, only=None, jobs=None, native=True, proof=True, verbose
             'out_of_reach': out_of_reach, 'undecided': [u['ob']['name'] for u in undecided],
             'bounded_standins': {'label': 'bounded (never counted as proved)', 'checks': nat_summary, 'cases': bounded_cases},
             'known_findings_matched': {k: v for k, v in known_hit.items()},
+            'assumed_callee_contracts': sorted({q for r in results for q in r.get('assumed_callee_contracts', [])}),
+            'ghost_reads_of_locals': sorted({q for r in results for q in r.get('ghost_reads_of_locals', [])}),
+            'precondition_assumptions': sum(r.get('assume_calls', 0) for r in results),
             'evaluations': n_obl + bounded_cases, 'distinct_nontrivial': n_obl,
             'rule': 'one evaluation per named proof obligation (distinct by name) plus one per bounded native contract case',
         },
